@@ -23,12 +23,28 @@
  *   XTA <hex trigger|-> <hex args|-> <hex rets|->
  *                      extract_trigger_args() of the snapshot (what `uftrace record` stores in the info file
  *                      for -T / -A / -R)  -> "n=<rc> argspec=<hex|-> retspec=<hex|->"
+ *   MRMAP <hexaddr> <npages> <r|n>   mmap(MAP_FIXED) inside the MR arena (r = readable+writable, n = PROT_NONE)  -> "ok"
+ *   MRUNMAP <hexaddr> <npages>       munmap inside the MR arena                                                -> "ok"
+ *   MRBRK <hexdelta>                 sbrk(+delta)                                                              -> "ok brk=<hex>"
+ *   MRSTR <addr> <hex|->             bytes + NUL at <addr> (hex, or B+<hex> = program break + offset, K+<hex> = break before the last MRBRK + offset, H+<hex> = heap start + offset)
+ *   MRQ <addr> <safe> <chk>          one query of the readable-region cache.  The address space is read (raw read of
+ *                                    /proc/self/maps, no allocation) -> "addr=<hex> maps=<start:stop:r|n:p|h|s;...>";
+ *                                    chk=1: check_mem_region() of the snapshot is called directly -> " chk=<0|1>";
+ *                                    rd=<0|1>: a string at <addr> can be loaded now (by the maps just read);
+ *                                    skip=1: safe=1, the verdict was "readable" and it is not -> the following E/X pair
+ *                                    is not executed ("skipped": the capture would fault the driver)
+ *   R <k> @            register k := address of the last MRQ
+ *   DCOPY              uftrace_deep_copy_triggers(mcount_triggers) (what the libmcount agent does before it applies an
+ *                      update): -> "orig=<tree> copy=<tree> pargs=<0|1>", tree = filters in address order, each
+ *                      <start>-<end>:<flags>:<root distance>[idx/fmt/size/exact/type/reg-or-ofs/regcnt/type name,...];
+ *                      pargs=1: every copied filter's trigger.pargs points to its own list
  *   END
  * mem = bytes [4, 2048) of the frame's slice (i.e. including the whole next slice) without the
  * trailing bytes that still have the fill value.
  */
 #define _GNU_SOURCE
 #include <errno.h>
+#include <fcntl.h>
 #include <pthread.h>
 #include <signal.h>
 #include <stdint.h>
@@ -42,6 +58,9 @@
 #include "libmcount/internal.h"
 #include "libmcount/mcount.h"
 #include "utils/utils.h"
+#include "utils/filter.h"
+#include "utils/argspec.h"
+#include "utils/rbtree.h"
 
 static uint64_t h1_now = 1000;
 
@@ -209,6 +228,141 @@ static int unhex(const char *h, unsigned char *out, int max)
 	return n;
 }
 
+/* ---- MR family: histories of the address space against check_mem_region ---- */
+#define MR_ARENA 0x100000000000UL
+#define MR_ARENA_PAGES 256
+extern bool check_mem_region(struct mcount_arg_context *ctx, unsigned long addr);
+struct mr_line {
+	unsigned long s, e;
+	int r;
+	char k;
+};
+static char mr_buf[1 << 17];
+static struct mr_line mr_lines[1024];
+static int mr_nlines;
+static unsigned long mr_last_addr;
+static int mr_skip, mr_skipx;
+static unsigned long mr_grown; /* the program break before the last MRBRK */
+
+static void mr_read_maps(void)
+{
+	int fd = open("/proc/self/maps", O_RDONLY);
+	size_t len = 0;
+	char *p, *nl;
+
+	mr_nlines = 0;
+	if (fd < 0)
+		return;
+	for (;;) {
+		ssize_t n = read(fd, mr_buf + len, sizeof(mr_buf) - 1 - len);
+
+		if (n <= 0)
+			break;
+		len += n;
+	}
+	close(fd);
+	mr_buf[len] = 0;
+	for (p = mr_buf; *p && mr_nlines < 1024; p = nl + 1) {
+		struct mr_line *l = &mr_lines[mr_nlines];
+		char *q;
+
+		nl = strchr(p, '\n');
+		if (nl == NULL)
+			break;
+		*nl = 0;
+		l->s = strtoul(p, &q, 16);
+		l->e = strtoul(q + 1, &q, 16);
+		l->r = q[1] == 'r';
+		l->k = strstr(q, "[heap]") ? 'h' : strstr(q, "[stack") ? 's' : 'p';
+		mr_nlines++;
+	}
+}
+
+static int mr_page_readable(unsigned long a)
+{
+	int i;
+
+	for (i = 0; i < mr_nlines; i++)
+		if (mr_lines[i].r && mr_lines[i].s <= a && a < mr_lines[i].e)
+			return 1;
+	return 0;
+}
+
+/* the copy loop of save_to_argbuf can load the string at a (by the maps just read) */
+static int mr_string_readable(unsigned long a)
+{
+	unsigned long end = (a | 4095UL) + 1, i;
+
+	if (!mr_page_readable(a))
+		return 0;
+	for (i = a; i < end && i < a + 100; i++)
+		if (*(volatile char *)i == 0)
+			return 1;
+	if (i == a + 100)
+		return 1;
+	return mr_page_readable(end);
+}
+
+static unsigned long mr_heap_start(void)
+{
+	int i;
+
+	for (i = 0; i < mr_nlines; i++)
+		if (mr_lines[i].k == 'h')
+			return mr_lines[i].s;
+	return 0;
+}
+
+static unsigned long mr_addr(const char *t)
+{
+	if (t[0] == 'B' && t[1] == '+')
+		return (unsigned long)sbrk(0) + strtoul(t + 2, NULL, 16);
+	if (t[0] == 'K' && t[1] == '+')
+		return mr_grown + strtoul(t + 2, NULL, 16);
+	if (t[0] == 'H' && t[1] == '+') {
+		mr_read_maps();
+		return mr_heap_start() + strtoul(t + 2, NULL, 16);
+	}
+	return strtoul(t, NULL, 16);
+}
+
+static int mr_in_arena(unsigned long a, unsigned long n)
+{
+	return a >= MR_ARENA && (a & 4095) == 0 && n >= 1 && a + n * 4096 <= MR_ARENA + MR_ARENA_PAGES * 4096UL;
+}
+
+/* ---- DCOPY: the deep copy of the trigger tree made by the agent ---- */
+extern struct uftrace_triggers_info *mcount_triggers;
+
+static int dcopy_print(struct rb_root *root)
+{
+	struct rb_node *n;
+	int own = 1, any = 0;
+
+	for (n = rb_first(root); n; n = rb_next(n)) {
+		struct uftrace_filter *f = rb_entry(n, struct uftrace_filter, node);
+		struct uftrace_arg_spec *a;
+		struct rb_node *up;
+		int dist = 0, first = 1;
+
+		for (up = n; rb_parent(up); up = rb_parent(up))
+			dist++;
+		printf("%lx-%lx:%x:%d[", (unsigned long)f->start, (unsigned long)f->end, (unsigned)f->trigger.flags, dist);
+		list_for_each_entry(a, &f->args, list) {
+			printf("%s%d/%d/%d/%d/%d/%d/%d/%s", first ? "" : ",", a->idx, (int)a->fmt, a->size, (int)a->exact,
+			       (int)a->type, (int)a->reg_idx, (int)a->struct_reg_cnt, a->type_name ? a->type_name : "-");
+			first = 0;
+		}
+		printf("];");
+		if (f->trigger.pargs != &f->args)
+			own = 0;
+		any = 1;
+	}
+	if (!any)
+		printf("-");
+	return own;
+}
+
 int main(void)
 {
 	static char line[8192];
@@ -316,6 +470,76 @@ int main(void)
 			dst[len] = 0;
 			printf("%d ok addr=%lx\n", opno, (unsigned long)dst);
 		}
+		else if (!strcmp(op, "MRMAP") || !strcmp(op, "MRUNMAP")) {
+			unsigned long a = strtoul(a1, NULL, 16);
+			unsigned long np = strtoul(a2, NULL, 10);
+			char prot[8] = "r";
+			int rc;
+
+			sscanf(line, "%*s %*s %*s %7s", prot);
+			if (!mr_in_arena(a, np)) {
+				printf("%d bad-op\n", opno);
+				continue;
+			}
+			if (!strcmp(op, "MRUNMAP"))
+				rc = munmap((void *)a, np * 4096);
+			else
+				rc = mmap((void *)a, np * 4096, prot[0] == 'n' ? PROT_NONE : PROT_READ | PROT_WRITE,
+					  MAP_PRIVATE | MAP_ANONYMOUS | MAP_FIXED, -1, 0) == (void *)a ? 0 : -1;
+			printf("%d %s\n", opno, rc == 0 ? "ok" : "failed");
+		}
+		else if (!strcmp(op, "MRBRK")) {
+			void *old = sbrk(strtoul(a1, NULL, 16));
+
+			if (old != (void *)-1)
+				mr_grown = (unsigned long)old;
+			printf("%d %s brk=%lx\n", opno, old == (void *)-1 ? "failed" : "ok", (unsigned long)sbrk(0));
+		}
+		else if (!strcmp(op, "MRSTR")) {
+			unsigned char tmp[160];
+			char *dst = (char *)mr_addr(a1);
+			int len = unhex(a2, tmp, 150);
+
+			memcpy(dst, tmp, len);
+			dst[len] = 0;
+			printf("%d ok addr=%lx\n", opno, (unsigned long)dst);
+		}
+		else if (!strcmp(op, "MRQ")) {
+			int safe = 1, chk = 1, v = -1, rd, i;
+			struct mcount_thread_data *mtdp = get_thread_data();
+
+			sscanf(a2, "%d", &safe);
+			sscanf(line, "%*s %*s %*s %d", &chk);
+			mr_last_addr = mr_addr(a1);
+			mr_read_maps();
+			printf("%d addr=%lx maps=", opno, mr_last_addr);
+			for (i = 0; i < mr_nlines; i++)
+				printf("%s%lx:%lx:%c:%c", i ? ";" : "", mr_lines[i].s, mr_lines[i].e,
+				       mr_lines[i].r ? 'r' : 'n', mr_lines[i].k);
+			if (chk) {
+				struct mcount_arg_context ctx;
+
+				memset(&ctx, 0, sizeof(ctx));
+				ctx.regs = &regs;
+				ctx.regions = &mtdp->mem_regions;
+				ctx.arch = &mtdp->arch;
+				v = check_mem_region(&ctx, mr_last_addr);
+			}
+			rd = mr_string_readable(mr_last_addr);
+			mr_skip = safe && !rd && (v != 0);
+			printf(" chk=%d rd=%d skip=%d\n", v, rd, mr_skip);
+		}
+		else if (!strcmp(op, "DCOPY")) {
+			struct uftrace_triggers_info copy = uftrace_deep_copy_triggers(mcount_triggers);
+			int own;
+
+			printf("%d orig=", opno);
+			dcopy_print(&mcount_triggers->root);
+			printf(" copy=");
+			own = dcopy_print(&copy.root);
+			printf(" pargs=%d counts=%d/%d:%d/%d\n", own, mcount_triggers->filter_count, copy.filter_count,
+			       mcount_triggers->caller_count, copy.caller_count);
+		}
 		else if (!strcmp(op, "T")) {
 			h1_now = strtoull(a1, NULL, 0);
 			printf("%d ok\n", opno);
@@ -326,7 +550,7 @@ int main(void)
 		}
 		else if (!strcmp(op, "R")) {
 			int k = atoi(a1);
-			unsigned long v = strtoull(a2, NULL, 16);
+			unsigned long v = a2[0] == '@' ? mr_last_addr : strtoull(a2, NULL, 16);
 			unsigned long *r[6] = { &regs.rdi, &regs.rsi, &regs.rdx, &regs.rcx, &regs.r8, &regs.r9 };
 
 			if (k >= 0 && k < 6)
@@ -403,6 +627,12 @@ int main(void)
 				printf("%d bad-op\n", opno);
 				continue;
 			}
+			if (mr_skip) {
+				mr_skip = 0;
+				mr_skipx = 1;
+				printf("%d skipped\n", opno);
+				continue;
+			}
 			idx = mtdp->idx;
 			h->fn = fn;
 			h->idx = idx;
@@ -464,6 +694,11 @@ int main(void)
 			struct mcount_thread_data *mtdp = get_thread_data();
 			const char *ret = "-";
 
+			if (mr_skipx) {
+				mr_skipx = 0;
+				printf("%d skipped\n", opno);
+				continue;
+			}
 			if (hdepth == 0) {
 				printf("%d bad-op\n", opno);
 				continue;
